@@ -52,7 +52,35 @@ def canon(sa):
     return (tuple(leaves(sa)), tuple(int(x) for x in sa.lmax))
 
 
+def events_towards(sa, config):
+    """graded refinement: the leaf containing each target point (alone, or all of them together); deep histories stay small"""
+    objs = sorted(sa.refinement.get_objects(), key=_key)
+    auto, single = config.get("automatic", False), config.get("single_dim", False)
+    d = sa.dim
+    picks = []
+    for t in config["towards"]:
+        for o in objs:
+            if all(o.start[k] <= t[k] <= o.end[k] for k in range(d)):
+                if o not in picks:
+                    picks.append(o)
+                break
+    sets = [[o] for o in picks] + ([picks] if len(picks) > 1 else [])
+    if auto:
+        opts = ["E", "S"]
+    elif single:
+        opts = [[k] for k in range(d)] + [list(range(d))]
+    else:
+        opts = [None]
+    out = []
+    for st in sets:
+        for combo in itertools.product(opts, repeat=len(st)):
+            out.append([[list(_key(o)[0]), list(_key(o)[1]), opt] for o, opt in zip(st, combo)])
+    return out
+
+
 def events(sa, config):
+    if config.get("towards"):
+        return events_towards(sa, config)
     objs = sorted(sa.refinement.get_objects(), key=_key)
     s = config.get("s", 1)
     d = sa.dim
@@ -78,6 +106,22 @@ def events(sa, config):
     if config.get("special", True) and len(objs) > s and not auto and not single:
         out.append([[list(_key(o)[0]), list(_key(o)[1]), None] for o in objs])
     return out
+
+
+def make_grid(config, a, b):
+    from sparseSpACE import Grid as G
+    name = config.get("grid", "trapezoidal")
+    if name == "trapezoidal":
+        return G.TrapezoidalGrid(a, b, boundary=config.get("boundary", True))
+    if name.startswith("lagrange"):
+        return G.LagrangeGrid(a, b, boundary=True, p=int(name[-1]))
+    if name.startswith("bspline"):
+        return G.BSplineGrid(a, b, boundary=True, p=int(name[-1]))
+    if name == "simpson":
+        return G.SimpsonGrid(a, b, boundary=True)
+    if name == "clenshaw_curtis":
+        return G.ClenshawCurtisGrid(a, b, boundary=True)
+    raise ValueError(name)
 
 
 class Run:
@@ -136,7 +180,7 @@ def build(config, history, comps, out_len, strategy="es", tol=0.5, perform_kwarg
     d = config["d"]
     a = np.array(config.get("a", [0.0] * d), dtype=float)
     b = np.array(config.get("b", [1.0] * d), dtype=float)
-    grid = TrapezoidalGrid(a, b, boundary=config.get("boundary", True))
+    grid = make_grid(config, a, b)
     f = CustomFunction(comps, output_length=out_len)
     op = Integration(f, grid=grid, dim=d, reference_solution=None)
     if strategy == "es":
